@@ -6,13 +6,20 @@ import json, os, shutil, subprocess, sys, time
 V = os.path.dirname(os.path.dirname(os.path.abspath(__file__)))
 ENV = dict(os.environ, CARGO_NET_OFFLINE="true")
 ids = [a for a in sys.argv[1:] if not a.startswith("--") and not a.startswith("C0") or len(a) == 3 or a.startswith("HL")]
-ids = [a for a in sys.argv[1:] if a[0] in "CH" and "," not in a]
+ids = [a for a in sys.argv[1:] if a[0] in "CH" and "," not in a and "/" not in a]
 full = "--full-lean" in sys.argv
 props_arg = None
 for i, a in enumerate(sys.argv):
     if a == "--props":
         props_arg = sys.argv[i + 1].split(",")
-OUT = os.path.join(V, ".work", "round2.jsonl")
+BASE = "/tmp/mut2"
+DEST = "seeds_in2"
+for i, a in enumerate(sys.argv):
+    if a == "--base":
+        BASE = sys.argv[i + 1]
+    if a == "--dest":
+        DEST = sys.argv[i + 1]
+OUT = os.path.join(V, ".work", "round2.jsonl" if DEST == "seeds_in2" else DEST + ".jsonl")
 
 
 def sh(cmd, cwd, timeout=3000, env=ENV):
@@ -21,8 +28,8 @@ def sh(cmd, cwd, timeout=3000, env=ENV):
 
 
 for sid in ids:
-    src = f"/tmp/mut2/{sid}/out"
-    dst = os.path.join(V, ".work", "seeds_in2", sid)
+    src = f"{BASE}/{sid}/out"
+    dst = os.path.join(V, ".work", DEST, sid)
     if not os.path.exists(os.path.join(src, "patch.diff")):
         print(sid, "no patch yet"); continue
     os.makedirs(dst, exist_ok=True)
@@ -34,7 +41,7 @@ for sid in ids:
     subprocess.check_call(["git", "-C", "/repo", "worktree", "add", "-q", "--detach", wt, "HEAD"])
     res = dict(id=sid)
     try:
-        harmless = sid.startswith("HL")
+        harmless = sid.startswith("H")
         feat = " --features embedded-io,embedded-io-async" if sid == "C16" else ""
         if not harmless and os.path.exists(os.path.join(dst, "demo.rs")):
             shutil.copy(os.path.join(dst, "demo.rs"), os.path.join(wt, "tests", "demo.rs"))
